@@ -41,6 +41,7 @@ import (
 	"math"
 	"os"
 	"strings"
+	"sync"
 	"sync/atomic"
 	"time"
 
@@ -97,6 +98,35 @@ type scen struct {
 	Busy     int    `json:"busy_goroutines,omitempty"`
 	Index    int    `json:"index"`
 	Confirm  bool   `json:"confirm_hang_by_bubble_deadlock,omitempty"`
+	// CustomParent: the parent context is a caller-implemented context.Context (not one of the standard library's): its
+	// cancellation reaches the contexts derived from it through one goroutine each, in no particular order
+	CustomParent bool `json:"caller_implemented_parent_context,omitempty"`
+}
+
+// callerCtx is a minimal caller-implemented context.
+type callerCtx struct {
+	mu   sync.Mutex
+	done chan struct{}
+	err  error
+}
+
+func newCallerCtx() *callerCtx { return &callerCtx{done: make(chan struct{})} }
+
+func (c *callerCtx) Deadline() (time.Time, bool) { return time.Time{}, false }
+func (c *callerCtx) Done() <-chan struct{}       { return c.done }
+func (c *callerCtx) Value(any) any               { return nil }
+func (c *callerCtx) Err() error {
+	c.mu.Lock()
+	defer c.mu.Unlock()
+	return c.err
+}
+func (c *callerCtx) cancel() {
+	c.mu.Lock()
+	if c.err == nil {
+		c.err = context.Canceled
+		close(c.done)
+	}
+	c.mu.Unlock()
 }
 
 func (s scen) T() time.Duration     { return time.Duration(s.TNs) }
@@ -131,7 +161,7 @@ func (s scen) E() time.Duration {
 }
 
 func (s scen) canonical() string {
-	return fmt.Sprintf("%s|%s|%s|%s|off=%d|T=%d|delta=%d|eps=%d|be=%v|busy=%d", s.Part, s.Runner, s.Kind, s.Parent, s.OffNs, s.TNs, s.DeltaNs, s.EpsNs, s.BlindErr, s.Busy)
+	return fmt.Sprintf("%s|%s|%s|%s|off=%d|T=%d|delta=%d|eps=%d|be=%v|busy=%d|cp=%v", s.Part, s.Runner, s.Kind, s.Parent, s.OffNs, s.TNs, s.DeltaNs, s.EpsNs, s.BlindErr, s.Busy, s.CustomParent)
 }
 
 // state is what the action wrapper and the caller record about one runner call.
